@@ -10,6 +10,11 @@ CLAIMED = {
    text="Every program of a typed core grammar (applications with fixed/rest parameters, lambda, top-level definitions in both spellings, internal definitions with forward references, if with boolean and non-boolean tests, quote, apply with and without spread arguments, higher-order and closure-making procedures, a tick probe at every position) with at most N nodes, under two naming disciplines, is evaluated form by form on the real interpreter; the value and the tick trace of every form must equal the reference evaluator's under one operand-order policy. The simplest programs are additionally re-run from the initial state of a fresh interpreter.",
    note="trusted: refsem (definitional evaluator written from R7RS, self-tested on the report's examples); programs beyond the node bound are not explored",
    design="7/C01"),
+ "C03": dict(
+   technique="explicit-state breadth-first search over operation histories, each transition replayed on the real interpreter and on a reference store model, states deduplicated on the canonical reference store",
+   text="Breadth-first search over ALL histories (up to the depth bound) of 41 operations on a pool of counters (private and shared bindings nested two frames deep), captured and redefined top-level variables, parameter assignment, and vectors aliased through variables, lists, vectors, arguments, closures, make-vector fill and vector slots. Every transition is executed on the real interpreter by replaying the history; the operation's result, the alias partition of 10 places (Rc pointer identity) and 37 probe forms must equal the reference store. The lower depths are re-explored with a new interpreter per transition.",
+   note="trusted: refsem as store model; canonical-state deduplication is sound because the dump covers every location reachable from the pool",
+   design="7/C03"),
  "C05": dict(
    technique="bounded exhaustive sweep: every shape x truth assignment x context of every derived form and all nested pairs/triples, executed on the real interpreter against a reference evaluator",
    text="Every shape of begin/let/let*/cond/case/and/or/when/unless (650+ templates) with a tick probe in every sub-form position under every truth assignment of its tests, in three evaluation contexts; every ordered pair (thorough: triple) of representative forms nested in every sub-form position; plus the hygiene facet (user variables named like identifiers of the bundled macro file, user rebinding of identifiers the templates rely on). Value and tick trace (order and multiplicity of evaluation) must equal the reference, which implements the forms directly from R7RS.",
@@ -31,6 +36,12 @@ CLAIMED = {
    note="trusted: refnum order; finite grid",
    design="7/C10"),
 }
+ 
+CLAIMED["C11"] = dict(
+   technique="bounded exhaustive sweep of every list-library procedure over all argument tuples of small domains, compositions and a length ladder, against reference list functions",
+   text="Every list-library procedure is run on every tuple of its argument domain (all proper lists up to length 3 (thorough 4) over three atoms, nested and improper variants, non-lists, all indices -1..len+1, ticking procedure arguments), on all two-level compositions of ten list functions and on a ladder of lengths up to 1000 (3000); results and tick traces (once per element, in order) must equal refsem's list functions; where the reference raises an error the implementation must raise one.",
+   note="trusted: refsem list library (R7RS 6.4; folds in minischeme argument order); R7RS-unspecified argument combinations are excluded and counted",
+   design="7/C11")
 NOT_YET = "check not built yet (build in progress, see DESIGN.md section 12)"
 NA = {}
 
